@@ -15,6 +15,13 @@ CDIR = os.path.join(common.VERIF, "c")
 
 SAN = ["-fsanitize=address,undefined", "-fno-sanitize-recover=all",
        "-fno-omit-frame-pointer", "-g", "-O1"]
+# second build family (one sanitizer family per build, the workload repeated per build): every
+# driver is also built with MemorySanitizer - everything in these harnesses is compiled here (the
+# repository's TUs, the shim, the driver), libc is intercepted - and fed the same input; a report,
+# or output that differs from the ASan build's, is returned to the caller as a failed run.
+MSAN = ["-fsanitize=memory", "-fsanitize-memory-track-origins=2", "-fno-omit-frame-pointer", "-g", "-O1"]
+MSAN_ON = os.environ.get("VERIF_NO_MSAN") is None
+STATS = {"msan_runs": 0, "msan_output_lines_compared": 0, "msan_session_ops": 0}
 WARN = ["-w"]
 
 # headers of firmware/include that are safe to expose on a host (never the
@@ -51,9 +58,17 @@ def firmware_staging(bd):
 	os.makedirs(asm, exist_ok = True)
 	with open(os.path.join(asm, "system.h"), "w") as f:
 		f.write("#pragma once\n"
+			"#ifdef VERIF_IRQ_SIM\n"
+			"/* interrupt-injection builds: the driver serves simulated interrupts only while this is 0 */\n"
+			"extern volatile int verif_irq_masked;\n"
+			"extern unsigned long verif_lock_sections;\n"
+			"#define local_firq_save(x) do { (x) = verif_irq_masked; verif_irq_masked = 1; verif_lock_sections++; } while (0)\n"
+			"#define local_irq_restore(x) do { verif_irq_masked = (int) (x); } while (0)\n"
+			"#else\n"
 			"/* host stub: no interrupts on a host */\n"
 			"#define local_firq_save(x) do { (x) = 0; } while (0)\n"
 			"#define local_irq_restore(x) do { (void)(x); } while (0)\n"
+			"#endif\n"
 			"#define local_irq_save(x) do { (x) = 0; } while (0)\n"
 			"#define local_irq_enable() do { } while (0)\n"
 			"#define local_irq_disable() do { } while (0)\n"
@@ -79,7 +94,7 @@ def libosmocore_config(bd):
 
 
 def compile_link(bd, out, sources, includes = (), defines = (), cflags = (), ldflags = (),
-                 sanitize = True, timeout = 300):
+                 sanitize = True, timeout = 300, twin = True):
 	cmd = ["clang"] + WARN + (SAN if sanitize else ["-g", "-O1"])
 	cmd += ["-I" + i for i in includes]
 	cmd += ["-D" + d for d in defines]
@@ -93,6 +108,16 @@ def compile_link(bd, out, sources, includes = (), defines = (), cflags = (), ldf
 		raise common.HarnessError("clang timed out building %s" % out)
 	if p.returncode != 0:
 		raise BuildFailed(out, p.stdout.decode(errors = "replace")[-3000:])
+	if sanitize and MSAN_ON and twin:
+		srcs = [(x[:-2] + ".msan.o") if (x.endswith(".o") and os.path.exists(x[:-2] + ".msan.o")) else x for x in sources]
+		cmd = ["clang"] + WARN + MSAN + ["-I" + i for i in includes] + ["-D" + d for d in defines]
+		cmd += [f for f in cflags if "sanitize" not in f] + srcs + ["-o", os.path.join(bd.path, out + ".msan")] + list(ldflags)
+		try:
+			p = subprocess.run(cmd, stdout = subprocess.PIPE, stderr = subprocess.STDOUT, timeout = timeout, cwd = bd.path)
+		except subprocess.TimeoutExpired:
+			raise common.HarnessError("clang timed out building %s (MemorySanitizer)" % out)
+		if p.returncode != 0:
+			raise BuildFailed(out + ".msan", p.stdout.decode(errors = "replace")[-3000:])
 	return os.path.join(bd.path, out)
 
 
@@ -107,19 +132,39 @@ def san_env():
 	env["ASAN_OPTIONS"] = "halt_on_error=1:exitcode=97:detect_leaks=0:abort_on_error=0:" \
 		"detect_stack_use_after_return=1:strict_string_checks=1:allocator_may_return_null=1"
 	env["UBSAN_OPTIONS"] = "halt_on_error=1:exitcode=97:print_stacktrace=1"
+	env["MSAN_OPTIONS"] = "halt_on_error=1:exit_code=96:print_stats=0"
 	sym = shutil.which("llvm-symbolizer") or shutil.which("llvm-symbolizer-14")
 	if sym:
 		env["ASAN_SYMBOLIZER_PATH"] = sym
+		env["MSAN_SYMBOLIZER_PATH"] = sym
 	return env
 
 
-def run(binary, stdin_data = b"", args = (), timeout = 300):
+def run(binary, stdin_data = b"", args = (), timeout = 300, twin = True):
 	""" -> (returncode, stdout bytes, stderr bytes); returncode None on timeout. """
 	try:
 		p = subprocess.run([binary] + list(args), input = stdin_data, stdout = subprocess.PIPE,
 			stderr = subprocess.PIPE, timeout = timeout, env = san_env())
 	except subprocess.TimeoutExpired as e:
 		return None, e.stdout or b"", e.stderr or b""
+	if p.returncode == 0 and twin and MSAN_ON and os.path.exists(binary + ".msan"):
+		try:
+			q = subprocess.run([binary + ".msan"] + list(args), input = stdin_data, stdout = subprocess.PIPE,
+				stderr = subprocess.PIPE, timeout = 4 * timeout, env = san_env())
+		except subprocess.TimeoutExpired as e:
+			raise common.HarnessError("the MemorySanitizer build of %s timed out" % os.path.basename(binary))
+		STATS["msan_runs"] += 1
+		if q.returncode != 0:
+			return (96 if b"MemorySanitizer" in q.stderr else q.returncode), q.stdout, q.stderr
+		if q.stdout != p.stdout:
+			a, b = p.stdout.split(b"\n"), q.stdout.split(b"\n")
+			k = 0
+			while k < min(len(a), len(b)) and a[k] == b[k]:
+				k += 1
+			msg = "BUILDS DISAGREE: output line %d is %r in the AddressSanitizer build and %r in the MemorySanitizer build" % (
+				k + 1, a[k][:120] if k < len(a) else None, b[k][:120] if k < len(b) else None)
+			return 95, b"\n".join(a[:k + 1]), msg.encode()
+		STATS["msan_output_lines_compared"] += p.stdout.count(b"\n")
 	return p.returncode, p.stdout, p.stderr
 
 
@@ -127,7 +172,7 @@ def sanitizer_summary(stderr):
 	""" First sanitizer report line (if any) out of a driver's stderr. """
 	txt = stderr.decode(errors = "replace")
 	for line in txt.splitlines():
-		if "runtime error:" in line or "ERROR: AddressSanitizer" in line or "SUMMARY:" in line:
+		if "runtime error:" in line or "ERROR: AddressSanitizer" in line or "SUMMARY:" in line or "MemorySanitizer" in line or "BUILDS DISAGREE" in line:
 			import re
 			return re.sub(r"/\S*/build/[^/ ]+/", "", line.strip())[:400]
 	return None
@@ -151,7 +196,7 @@ def attach(tag):
 	return bd
 
 
-def run_cases(binary, cases, timeout = 600, args = ()):
+def run_cases(binary, cases, timeout = 600, args = (), twin = True):
 	""" Feed a list of case scripts (bytes, each starting with a line
 	    b"N <index>\n" that makes the driver print "CASE <index>") to a driver.
 	    Returns (outputs, crashes): outputs[i] = list of stdout lines of case i
@@ -167,7 +212,7 @@ def run_cases(binary, cases, timeout = 600, args = ()):
 		if guard > 25:
 			break
 		blob = b"".join(cases[start:])
-		rc, out, err = run(binary, blob, args = args, timeout = timeout)
+		rc, out, err = run(binary, blob, args = args, timeout = timeout, twin = twin)
 		cur = None
 		for line in out.decode(errors = "replace").split("\n"):
 			if line.startswith("CASE "):
@@ -201,7 +246,7 @@ def trxcon_includes(bd):
 	return [os.path.join(CDIR, "shim"), fwd, os.path.join(TRXCON, "include")]
 
 
-def compile_obj(bd, src, includes = (), defines = (), cflags = (), sanitize = True, timeout = 300):
+def compile_obj(bd, src, includes = (), defines = (), cflags = (), sanitize = True, timeout = 300, twin = True):
 	""" One source -> one object (for TUs that need their own include path). """
 	obj = os.path.join(bd.path, os.path.basename(src) + ".%x.o" % (hash(src) & 0xffff))
 	cmd = ["clang"] + WARN + (SAN if sanitize else ["-g", "-O1"]) + ["-c", src, "-o", obj]
@@ -212,6 +257,12 @@ def compile_obj(bd, src, includes = (), defines = (), cflags = (), sanitize = Tr
 		raise common.HarnessError("clang timed out building %s" % src)
 	if p.returncode != 0:
 		raise BuildFailed(src, p.stdout.decode(errors = "replace")[-3000:])
+	if sanitize and MSAN_ON and twin:
+		cmd = ["clang"] + WARN + MSAN + ["-c", src, "-o", obj[:-2] + ".msan.o"]
+		cmd += ["-I" + i for i in includes] + ["-D" + d for d in defines] + [f for f in cflags if "sanitize" not in f]
+		p = subprocess.run(cmd, stdout = subprocess.PIPE, stderr = subprocess.STDOUT, timeout = timeout, cwd = bd.path)
+		if p.returncode != 0:
+			raise BuildFailed(src + " (MemorySanitizer)", p.stdout.decode(errors = "replace")[-3000:])
 	return obj
 
 
@@ -234,6 +285,53 @@ class Session:
 		self.p = subprocess.Popen([binary] + list(args), stdin = subprocess.PIPE, stdout = subprocess.PIPE,
 			stderr = subprocess.PIPE, env = san_env())
 		self.dead = False
+		# the same session is mirrored into the MemorySanitizer build; it must answer the same
+		self.twin = None
+		self.twin_fail = None
+		if MSAN_ON and os.path.exists(binary + ".msan"):
+			self.twin = subprocess.Popen([binary + ".msan"] + list(args), stdin = subprocess.PIPE, stdout = subprocess.PIPE,
+				stderr = subprocess.PIPE, env = san_env())
+
+	def _twin_op(self, line, end_prefixes, expect):
+		t = self.twin
+		out = []
+		try:
+			t.stdin.write(line.encode() + b"\n")
+			t.stdin.flush()
+			while True:
+				l = t.stdout.readline()
+				if not l:
+					out = None
+					break
+				l = l.decode(errors = "replace").rstrip("\n")
+				out.append(l)
+				if l.startswith(tuple(end_prefixes)):
+					break
+		except (BrokenPipeError, OSError):
+			out = None
+		STATS["msan_session_ops"] += 1
+		if out is None:
+			try:
+				t.stdin.close()
+			except Exception:
+				pass
+			try:
+				t.wait(timeout = 20)
+			except subprocess.TimeoutExpired:
+				t.kill()
+				t.wait()
+			err = t.stderr.read().decode(errors = "replace")
+			self.twin_fail = (96 if "MemorySanitizer" in err else t.returncode, err)
+			self.twin = None
+			return False
+		if expect is not None and out != expect:
+			self.twin_fail = (95, "BUILDS DISAGREE: op %r answered %r in the AddressSanitizer build and %r in the MemorySanitizer build"
+				% (line[:80], expect[:6], out[:6]))
+			t.kill()
+			t.wait()
+			self.twin = None
+			return False
+		return True
 
 	def op(self, line, end_prefixes):
 		""" Send one op; return the output lines up to and including the first
@@ -255,7 +353,12 @@ class Session:
 			l = l.decode(errors = "replace").rstrip("\n")
 			out.append(l)
 			if l.startswith(tuple(end_prefixes)):
-				return out
+				break
+		if self.twin is not None and not self._twin_op(line, end_prefixes, out):
+			# reported like a death of the session: close() hands out the report
+			self.dead = True
+			return None
+		return out
 
 	def close(self):
 		""" -> (returncode, stderr text) """
@@ -271,4 +374,22 @@ class Session:
 		err = self.p.stderr.read().decode(errors = "replace")
 		self.p.stdout.close()
 		self.p.stderr.close()
+		if self.twin is not None:
+			try:
+				self.twin.stdin.close()
+			except Exception:
+				pass
+			try:
+				trc = self.twin.wait(timeout = 20)
+			except subprocess.TimeoutExpired:
+				self.twin.kill()
+				trc = self.twin.wait()
+			terr = self.twin.stderr.read().decode(errors = "replace")
+			self.twin.stdout.close()
+			self.twin.stderr.close()
+			self.twin = None
+			if trc != 0 and rc == 0:
+				return (96 if "MemorySanitizer" in terr else trc), terr
+		if self.twin_fail is not None and rc == 0:
+			return self.twin_fail
 		return rc, err
